@@ -41,6 +41,12 @@ pub struct Profile {
     pub w_save: u64,
     pub w_restore: u64,
     pub w_invalid: u64,
+    /// macro: a structure addition left pending (no update) right before a prune
+    pub w_pending_prune: u64,
+    /// macro: rotate, then disable every attribute an encapsulation names, update, re-encapsulate it
+    pub w_recaps_dead: u64,
+    /// macro: insert several attributes at chosen ranks of a hierarchy, update, issue keys on its levels
+    pub w_grow: u64,
     pub hyb: u64,
 }
 
@@ -74,6 +80,9 @@ pub fn profile(name: &str) -> Profile {
         w_save: 0,
         w_restore: 0,
         w_invalid: 2,
+        w_pending_prune: 1,
+        w_recaps_dead: 1,
+        w_grow: 1,
         hyb: 3,
     };
     match name {
@@ -98,6 +107,9 @@ pub fn profile(name: &str) -> Profile {
             w_roundtrip: 0,
             w_mpk: 0,
             w_invalid: 0,
+            w_pending_prune: 0,
+            w_recaps_dead: 0,
+            w_grow: 0,
             w_keygen: 5,
             w_encaps: 9,
             users: 5,
@@ -133,6 +145,9 @@ pub fn profile(name: &str) -> Profile {
             w_recaps: 0,
             w_refresh: 10,
             w_clone: 4,
+            w_pending_prune: 0,
+            w_recaps_dead: 0,
+            w_grow: 0,
             ..base
         },
         "revocation" => Profile {
@@ -148,6 +163,8 @@ pub fn profile(name: &str) -> Profile {
             w_recaps: 0,
             w_refresh: 10,
             w_clone: 3,
+            w_pending_prune: 4,
+            w_recaps_dead: 0,
             ..base
         },
         "disable" => Profile {
@@ -177,6 +194,8 @@ pub fn profile(name: &str) -> Profile {
             w_prune: 4,
             w_recaps: 10,
             w_encaps: 8,
+            w_recaps_dead: 4,
+            w_grow: 0,
             ..base
         },
         "ids" => Profile {
@@ -197,6 +216,36 @@ pub fn profile(name: &str) -> Profile {
             w_save: 3,
             w_restore: 3,
             w_clone: 1,
+            w_pending_prune: 0,
+            w_recaps_dead: 0,
+            w_grow: 0,
+            users: 5,
+            ..base
+        },
+        // additions and renames only (never a deletion, so no identifier is ever shared): hierarchies grown
+        // by insertion at every rank, keys issued before and after
+        "grow" => Profile {
+            name: "grow",
+            attrs: 2,
+            steps: 24,
+            w_add_attr: 5,
+            w_del_attr: 0,
+            w_del_dim: 0,
+            w_swap: 0,
+            w_born: 0,
+            w_rename: 3,
+            w_disable: 1,
+            w_add_dim: 1,
+            w_update: 8,
+            w_rekey: 1,
+            w_prune: 0,
+            w_recaps: 0,
+            w_keygen: 8,
+            w_refresh: 4,
+            w_encaps: 6,
+            w_grow: 6,
+            w_pending_prune: 0,
+            w_recaps_dead: 0,
             users: 5,
             ..base
         },
@@ -474,6 +523,9 @@ impl Driver {
             ("header", p.w_header),
             ("swap_attr", p.w_swap),
             ("born_disabled", p.w_born),
+            ("pending_prune", p.w_pending_prune),
+            ("recaps_dead", p.w_recaps_dead),
+            ("grow", p.w_grow),
             ("roundtrip", p.w_roundtrip),
             ("mpk", p.w_mpk),
             ("save_msk", p.w_save),
@@ -686,6 +738,117 @@ impl Driver {
                         self.step(&json!({"op": "del_attr", "d": d, "n": n}));
                     }
                     json!({"op": "update"})
+                }
+                "pending_prune" => {
+                    // prune while a structure addition is pending (not yet applied by an update): the policy
+                    // then expands to rights the master key does not hold yet, next to the ones it must prune
+                    let pol = self.rand_policy(&mut rng, p, false);
+                    if rng.chance(1, 2) {
+                        self.step(&json!({"op": "rekey", "pol": pol.clone()}));
+                        for u in &users {
+                            if rng.chance(1, 2) {
+                                self.step(&json!({"op": "refresh", "u": u, "keep": true}));
+                            }
+                        }
+                    }
+                    let dims_now: Vec<String> = st.iter().map(|x| x.0.clone()).collect();
+                    if rng.chance(1, 2) && st.len() <= p.dims {
+                        if let Some(d) = DIMS.iter().find(|d| !dims_now.iter().any(|x| x == **d)) {
+                            self.step(&json!({"op": "add_dim", "d": d, "kind": if rng.chance(1, 2) {"H"} else {"A"}}));
+                            for _ in 0..(1 + rng.below(2)) {
+                                let n = self.fresh_name();
+                                self.step(&json!({"op": "add_attr", "d": d, "n": n, "hint": rng.chance(p.hyb, 10)}));
+                            }
+                        }
+                    } else if let Some(x) = rng.pick(&st) {
+                        let n = self.fresh_name();
+                        self.step(&json!({"op": "add_attr", "d": x.0, "n": n, "hint": rng.chance(p.hyb, 10)}));
+                    }
+                    self.step(&json!({"op": "prune", "pol": pol}));
+                    self.step(&json!({"op": "update"}));
+                    for u in &users {
+                        self.step(&json!({"op": "refresh", "u": u, "keep": true}));
+                    }
+                    continue;
+                }
+                "recaps_dead" => {
+                    // rotate the rights of a kept encapsulation, disable every attribute it names, update, then
+                    // re-encapsulate it under the newest public key: nothing it targets is published any more
+                    let cands: Vec<(String, Value)> = self
+                        .world
+                        .encs
+                        .iter()
+                        .filter(|(_, r)| r.pol.as_array().map_or(false, |cs| !cs.is_empty() && cs.iter().all(|c| c.as_array().map_or(false, |c| !c.is_empty()))))
+                        .map(|(e, r)| (e.clone(), r.pol.clone()))
+                        .collect();
+                    let (from, pol) = match rng.pick(&cands) {
+                        Some(x) => x.clone(),
+                        None => continue,
+                    };
+                    if rng.chance(3, 4) {
+                        self.step(&json!({"op": "rekey", "pol": pol.clone()}));
+                    }
+                    let mut named: Vec<(String, String)> = Vec::new();
+                    for c in pol.as_array().unwrap() {
+                        for a in c.as_array().unwrap() {
+                            let x = (a[0].as_str().unwrap_or("").to_string(), a[1].as_str().unwrap_or("").to_string());
+                            if !named.contains(&x) {
+                                named.push(x);
+                            }
+                        }
+                    }
+                    // usually every clause loses one attribute (the whole audience is gone), sometimes only some
+                    let all = rng.chance(3, 4);
+                    for c in pol.as_array().unwrap() {
+                        let attrs = c.as_array().unwrap();
+                        if all || rng.chance(1, 2) {
+                            let a = &attrs[rng.below(attrs.len())];
+                            self.step(&json!({"op": "disable", "d": a[0], "n": a[1]}));
+                        }
+                    }
+                    self.step(&json!({"op": "update"}));
+                    self.n_enc += 1;
+                    json!({"op": "recaps", "e": format!("e{}", self.n_enc), "from": from, "mpk": self.world.mpks.len()})
+                }
+                "grow" => {
+                    // insert attributes at chosen ranks of a hierarchy (bottom, above any existing attribute),
+                    // update, then issue one key per level or so and let the probes cover every level
+                    let hier: Vec<(String, Vec<String>)> = st
+                        .iter()
+                        .filter(|x| x.1 == "H")
+                        .map(|x| (x.0.clone(), x.2.iter().map(|a| a.0.clone()).collect()))
+                        .collect();
+                    let (d, mut names) = match rng.pick(&hier) {
+                        Some(x) => x.clone(),
+                        None => continue,
+                    };
+                    for _ in 0..(1 + rng.below(3)) {
+                        let n = self.fresh_name();
+                        let mut op = json!({"op": "add_attr", "d": d, "n": n, "hint": rng.chance(p.hyb, 10)});
+                        if !names.is_empty() && rng.chance(4, 5) {
+                            // biased to the low ranks: that is where several attributes sit above the new one
+                            let top = 1 + rng.below(names.len());
+                            let i = rng.below(top);
+                            op["after"] = json!(names[i]);
+                            names.insert(i + 1, n.clone());
+                        } else {
+                            names.insert(0, n.clone());
+                        }
+                        self.step(&op);
+                    }
+                    self.step(&json!({"op": "update"}));
+                    for n in &names {
+                        if rng.chance(1, 2) && self.world.usks.len() < p.users + 2 {
+                            self.n_user += 1;
+                            self.step(&json!({"op": "keygen", "u": format!("u{}", self.n_user), "pol": [[[d, n]]]}));
+                        }
+                    }
+                    for u in &users {
+                        if rng.chance(1, 3) {
+                            self.step(&json!({"op": "refresh", "u": u, "keep": rng.chance(1, 2)}));
+                        }
+                    }
+                    continue;
                 }
                 "header" => {
                     let k = if rng.chance(2, 3) { nmpk } else { 1 + rng.below(nmpk) };
